@@ -360,72 +360,13 @@ pub fn position_sweep(seed: u64, idx: u64) -> Option<Scenario> {
     })
 }
 
-/// Runs the judgement in a child process whose judging thread has the scenario's stack size; a
-/// child that dies (stack overflow aborts the process, exactly as it would the server) is the
-/// violation.
-fn judge_in_child(sc: &Scenario) -> Judgement {
-    use std::sync::atomic::{AtomicU64, Ordering};
-    static N: AtomicU64 = AtomicU64::new(0);
-    let mut j = Judgement::default();
-    let dir = std::env::temp_dir();
-    let path = dir.join(format!("simcheck-child-{}-{}.json", std::process::id(), N.fetch_add(1, Ordering::Relaxed)));
-    if std::fs::write(&path, serde_json::to_string(sc).unwrap()).is_err() {
-        j.notes.push("harness: cannot write the child scenario".into());
-        return j;
-    }
-    let exe = std::env::current_exe().expect("current_exe");
-    let out = std::process::Command::new(exe)
-        .args(["judge-child", ID, path.to_str().unwrap()])
-        .env("VERIF_IN_CHILD", "1")
-        .output();
-    let _ = std::fs::remove_file(&path);
-    j.probe("session run on a 2 MiB stack in a child process", 1);
-    let out = match out {
-        Ok(o) => o,
-        Err(e) => {
-            j.notes.push(format!("harness: cannot start the child process: {e}"));
-            return j;
-        }
-    };
-    let stdout = String::from_utf8_lossy(&out.stdout);
-    let stderr = String::from_utf8_lossy(&out.stderr);
-    if !out.status.success() {
-        let overflow = stderr.contains("stack overflow") || stderr.contains("overflowed its stack");
-        j.violate(
-            ID,
-            if overflow { "stack-overflow" } else { "process-died" },
-            if overflow { "stack-overflow".into() } else { "process-died".into() },
-            format!(
-                "run on a thread with a {} KiB stack (tokio worker threads have 2048 KiB) the process dies ({:?}): {}",
-                sc.knobs.stack_kib,
-                out.status,
-                stderr.lines().last().unwrap_or("")
-            ),
-        );
-        return j;
-    }
-    for l in stdout.lines() {
-        if let Some(rest) = l.strip_prefix("CHILD-VIOLATION ") {
-            if let Ok(v) = serde_json::from_str::<serde_json::Value>(rest) {
-                if v["property"] == ID {
-                    j.violate(
-                        ID,
-                        v["clause"].as_str().unwrap_or(""),
-                        v["signature"].as_str().unwrap_or("").to_string(),
-                        v["detail"].as_str().unwrap_or("").to_string(),
-                    );
-                }
-            }
-        } else if let Some(rest) = l.strip_prefix("CHILD-NOTE ") {
-            j.notes.push(rest.to_string());
-        }
-    }
-    j
-}
-
 pub fn judge(sc: &Scenario) -> Judgement {
     if sc.knobs.stack_kib > 0 && std::env::var("VERIF_IN_CHILD").is_err() {
-        return judge_in_child(sc);
+        // on the stack size the deployed server has: in a child process, whose death (stack
+        // overflow aborts the process exactly as it would the server) is the violation
+        let mut j = crate::h::driver::judge_in_child(ID, sc);
+        j.probe("session run on a 2 MiB stack in a child process", 1);
+        return j;
     }
     let mut j = Judgement::default();
     // domain: well-formed sessions (handshake first, shutdown + exit last)
